@@ -267,7 +267,9 @@ fn gen_case_v<V: Value>(seed: u64, idx: u64, expr_mode: bool, mk: &dyn Fn(&Tree)
     let mut coq_ops: Vec<String> = vec![];
     let mut descr = format!("{}{} backing={}", if expr_mode { "V=Expression " } else { "" }, e_coq(&endian), if has_backing { "yes" } else { "no" });
     let wrap_other = |s: String| -> String { if expr_mode { format!("EOther ({})", s) } else { s } };
-    for _ in 0..nops {
+    let mut reached = 0usize; // operations generated so far = droppable elements of this history (minimisation protocol)
+    for pos in 0..nops as usize {
+        reached = pos + 1;
         let h = r.below(3) as usize;
         let k = r.below(100);
         let op = if k < 40 {
@@ -294,11 +296,17 @@ fn gen_case_v<V: Value>(seed: u64, idx: u64, expr_mode: bool, mk: &dyn Fn(&Tree)
         } else {
             Op::Eq(h, r.below(3) as usize)
         };
+        // minimisation protocol (`--keep p0,p1,..`): the operation was generated exactly as usual (same Rng stream, same
+        // address pool) but is not run; only what generation of later operations depends on is kept up to date
+        if !kept(pos) {
+            if let Op::Store(_, a, _, _) = &op { earlier.push(*a); }
+            continue;
+        }
         if let Some(tr) = trace {
             let (pc, pd) = abort_text(&op, expr_mode);
             let mut ops2 = coq_ops.clone();
             ops2.push(pc);
-            tr(&finish(&hdr, &ops2, &format!("{}; {}", descr, pd), &st, true));
+            tr(&finish(&hdr, &ops2, &format!("{}; {}", descr, pd), &st, true).with_elements(reached));
         }
         let (coq, d, was_panic) = match op {
             Op::Store(h, a, t, w) => {
@@ -379,7 +387,8 @@ fn gen_case_v<V: Value>(seed: u64, idx: u64, expr_mode: bool, mk: &dyn Fn(&Tree)
         write!(descr, "; {}", d).unwrap();
         if was_panic { st.panicked = true; break; }
     }
-    finish(&hdr, &coq_ops, &descr, &st, false)
+    if let Some(k) = keep_arg() { descr = format!("[operations kept: {} of {}] {}", k, reached, descr); }
+    finish(&hdr, &coq_ops, &descr, &st, false).with_elements(reached)
 }
 
 /// three histories in four over Memory<il::Constant>, one in four over Memory<il::Expression>
@@ -459,7 +468,8 @@ fn run_child(exe: &std::path::Path, a: &[String], limit: std::time::Duration) ->
 fn run_range(args: &Args, exe: &std::path::Path, lo: u64, hi: u64, chunk_limit: std::time::Duration, one_limit: std::time::Duration) -> Vec<Case> {
     let mut cases = vec![];
     let mut next = lo;
-    let base = vec!["--child".to_string(), "1".into(), "--seed".into(), args.seed.to_string(), "--n".into(), args.n.to_string(), "--out".into(), args.out.clone()];
+    let mut base = vec!["--child".to_string(), "1".into(), "--seed".into(), args.seed.to_string(), "--n".into(), args.n.to_string(), "--out".into(), args.out.clone()];
+    if let Some(k) = keep_arg() { base.extend(["--keep".to_string(), k]); } // minimisation protocol: children drop the same operations
     while next < hi {
         let f = format!("{}/child_{}.jsonl", args.out, next);
         let mut a = base.clone();
